@@ -52,7 +52,7 @@ func (tr trial) String() string {
 }
 
 var opNames = []string{"Noop", "Status", "Fetch", "Search", "UIDSearch", "AppendSync", "AppendNonSync", "List", "Capability", "Caps", "State", "Mailbox", "Enable", "Store", "Idle", "Login",
-	"Noop", "Status", "Fetch", "BigFetchCollect", "BigFetchLag", "BigFetchLag", "LoginLit", "Search2", "Logout"}
+	"Noop", "Status", "Fetch", "BigFetchCollect", "BigFetchLag", "BigFetchLag", "LoginLit", "Search2", "Logout", "FetchBigLiteral", "FetchBigLiteral", "Mailbox", "Noop"}
 
 const bigN = 300
 
@@ -105,7 +105,17 @@ func (sv *server) reply(cmd *script.Command) string {
 		return "* LIST () \"/\" a\r\n* LIST () \"/\" b\r\n" + tag + " OK done\r\n"
 	case "LOGOUT":
 		return "* BYE logging out\r\n" + tag + " OK done\r\n"
+	case "NOOP":
+		// unilateral mailbox updates: the client's mailbox summary changes
+		// while other goroutines read it
+		return "* 1 EXPUNGE\r\n* 5 EXISTS\r\n* FLAGS (\\Seen \\Deleted)\r\n* OK [PERMANENTFLAGS (\\Seen)] ok\r\n" + tag + " OK done\r\n"
 	case "FETCH":
+		if bytes.Contains(cmd.Raw, []byte(" 7 ")) {
+			// one message with a large body literal; the server loop sends it
+			// in several pieces (see loop)
+			big := strings.Repeat("0123456789abcdef", 8192)
+			return fmt.Sprintf("* 7 FETCH (BODY[] {%d}\r\n%s)\r\n%s OK done\r\n", len(big), big, tag)
+		}
 		if bytes.Contains(cmd.Raw, []byte(fmt.Sprintf(" 1:%d ", bigN))) {
 			var b strings.Builder
 			for i := 1; i <= bigN; i++ {
@@ -206,7 +216,20 @@ func (sv *server) loop() {
 			held = append(held, out)
 			continue
 		}
-		s.Send(out)
+		if len(out) > 100000 {
+			// a big literal arrives in pieces, with the consumer reading in between
+			for len(out) > 0 {
+				n := 30000
+				if n > len(out) {
+					n = len(out)
+				}
+				s.Send(out[:n])
+				out = out[n:]
+				time.Sleep(300 * time.Microsecond)
+			}
+		} else {
+			s.Send(out)
+		}
 		for i := len(held) - 1; i >= 0; i-- {
 			s.Send(held[i])
 		}
@@ -344,6 +367,25 @@ func runTrial(t fataler, tr trial) int64 {
 						err := cmd.Close()
 						return err
 					})
+				case "FetchBigLiteral":
+					// a body literal streamed to the caller in small reads while
+					// other goroutines (and the disruptor) do their thing
+					wait(who, op, func() error {
+						cmd := c.Fetch(imap.SeqSetNum(7), &imap.FetchOptions{BodySection: []*imap.FetchItemBodySection{{}}})
+						buf := make([]byte, 1500)
+						for msg := cmd.Next(); msg != nil; msg = cmd.Next() {
+							for item := msg.Next(); item != nil; item = msg.Next() {
+								if bs, ok := item.(imapclient.FetchItemDataBodySection); ok && bs.Literal != nil {
+									for {
+										if _, err := bs.Literal.Read(buf); err != nil {
+											break
+										}
+									}
+								}
+							}
+						}
+						return cmd.Close()
+					})
 				case "Logout":
 					wait(who, op, func() error { return c.Logout().Wait() })
 				case "LoginLit":
@@ -400,7 +442,18 @@ func runTrial(t fataler, tr trial) int64 {
 				case "State":
 					_ = c.State()
 				case "Mailbox":
-					_ = c.Mailbox()
+					// a snapshot: reading it must not race with later updates
+					if mb := c.Mailbox(); mb != nil {
+						n := mb.NumMessages + uint32(len(mb.Flags)+len(mb.PermanentFlags)+len(mb.Name))
+						for _, f := range mb.Flags {
+							n += uint32(len(f))
+						}
+						runtime.Gosched()
+						if mb2 := c.Mailbox(); mb2 != nil {
+							n += mb2.NumMessages + mb.NumMessages
+						}
+						_ = n
+					}
 				}
 			}
 		}(wi, ops)
@@ -508,8 +561,14 @@ func TestReplayScenarios(t *testing.T) {
 		runTrial(t, trial{workers: [][]string{{"LoginLit", "AppendSync"}, {"Search2", "AppendSync"}}, dis: disruptor{kind: "none"}, noLitMinus: true, refuse: 1 + i%3})
 		// backlogged FETCH streams while other goroutines look at the client
 		runTrial(t, trial{workers: [][]string{{"BigFetchLag"}, {"State", "Mailbox", "Noop", "State"}, {"BigFetchCollect"}}, dis: disruptor{kind: "none"}})
-		ev.EvalN(7)
+		// Client.Close while a body literal is being streamed to a caller
+		runTrial(t, trial{workers: [][]string{{"FetchBigLiteral"}, {"Noop", "Noop", "Noop"}}, dis: disruptor{kind: "client-close", after: 3 + i%2}})
+		// mailbox summary read by several goroutines while unilateral updates arrive
+		runTrial(t, trial{workers: [][]string{{"Mailbox", "Mailbox", "Mailbox", "Mailbox"}, {"Noop", "Noop", "Noop"}, {"Mailbox", "Noop", "Mailbox"}}, dis: disruptor{kind: "none"}})
+		ev.EvalN(9)
 	}
+	ev.NonTrivial("scenario:close-during-literal-streaming")
+	ev.NonTrivial("scenario:mailbox-snapshot-vs-updates")
 	ev.NonTrivial("scenario:write-error-after-logout-during-fetch")
 	ev.NonTrivial("scenario:refused-literal-then-literals")
 	ev.NonTrivial("scenario:backlogged-fetch-vs-state")
